@@ -15,6 +15,7 @@ import (
 	"sync"
 	"time"
 
+	"github.com/aperturerobotics/bifrost/crypto"
 	"github.com/aperturerobotics/bifrost/hash"
 	"github.com/aperturerobotics/bifrost/peer"
 	signaling "github.com/aperturerobotics/bifrost/signaling/rpc"
@@ -184,6 +185,7 @@ func main() {
 		a := &app{sendRes: map[int]string{}, sendSeq: map[int]uint64{}}
 		var honestBodies = map[string]bool{}
 		var dseq uint64
+		var lastHonest *signaling.SessionMsg
 		mkMsg := func(cls string) *signaling.SessionMsg {
 			dseq++
 			body := []byte("deliver-" + cls + "-" + string(rune('a'+int(dseq%26))))
@@ -195,10 +197,23 @@ func main() {
 					m.SignedMsg.Data[len(m.SignedMsg.Data)-1] ^= 0x04
 				} else {
 					honestBodies[string(body)] = true
+					lastHonest = m.CloneVT()
 				}
 			case "thirdkey": // signed by a third key, claims the partner
 				m, _ = signaling.NewSessionMsg(third, hash.HashType_HashType_BLAKE3, body, dseq)
 				m.SignedMsg.FromPeerId = partnerID.String()
+			case "attachedkey": // signed by a third key, claims the partner, carries the third key in the optional signature.pub_key field
+				m, _ = signaling.NewSessionMsg(third, hash.HashType_HashType_BLAKE3, body, dseq)
+				m.SignedMsg.FromPeerId = partnerID.String()
+				m.SignedMsg.Signature.PubKey, _ = crypto.MarshalPublicKey(third.GetPublic())
+			case "alteredprev": // the previous honest message again (same signature, same sender) with altered data
+				if lastHonest != nil {
+					m = lastHonest.CloneVT()
+					m.SignedMsg.Data = append([]byte{}, body...)
+				} else {
+					m, _ = signaling.NewSessionMsg(partner, hash.HashType_HashType_BLAKE3, body, dseq)
+					m.SignedMsg.Data[len(m.SignedMsg.Data)-1] ^= 0x04
+				}
 			case "otherctx": // signed by the partner under another context
 				sm, _ := peer.NewSignedMsg("verif/some/other/context", partner, hash.HashType_HashType_BLAKE3, body)
 				m = &signaling.SessionMsg{SignedMsg: sm, Seqno: dseq}
